@@ -1,5 +1,6 @@
 import PanderaModel.Lemmas.Frame
 import PanderaModel.Generated.BuiltinChecks
+import PanderaModel.Aggregate
 /-!
 # C01 — validation verdict equals the declared schema semantics (pandas)
 
@@ -117,6 +118,54 @@ theorem pandas_builtin_eq_docPred (b : Builtin) (v : Val) (hv : builtinValid b =
     cases lo <;> cases hi <;> simp [builtinValid] at hv <;>
       simp [evalVia, lookupCE, pandasBuiltins, Builtin.pyName, Builtin.pyArgs, CE.eval, docPred, optNat, cmpNat] <;>
       cases v <;> simp [strOp, optAnd, Bool.and_comm]
+
+end C01
+end Pandera
+
+/-! ## the whole-column built-in `unique_values_eq` -/
+namespace Pandera
+namespace C01
+
+/-- with nothing to look at (an empty column, or — under `ignore_na` — an all-null one) the check
+holds only for the empty value set: a vacuous column is *not* accepted when values are required -/
+theorem uniqueValuesEq_vacuous (vs col : List Val) (h : col.all Val.isNull = true) :
+    uniqueValuesEq vs true col = vs.isEmpty := by
+  have hs : aggShown true col = [] := by
+    unfold aggShown
+    simp only [if_true, List.filter_eq_nil_iff]
+    intro v hv
+    have := List.all_eq_true.mp h v hv
+    simp [this]
+  unfold uniqueValuesEq setEq
+  rw [hs]
+  cases vs <;> simp
+
+theorem uniqueValuesEq_empty_column (vs : List Val) (na : Bool) :
+    uniqueValuesEq vs na [] = vs.isEmpty := by
+  unfold uniqueValuesEq setEq aggShown
+  cases vs <;> cases na <;> simp
+
+/-- nulls never matter under `ignore_na` -/
+theorem uniqueValuesEq_ignores_nulls (vs col : List Val) :
+    uniqueValuesEq vs true (col.filter (fun v => !v.isNull)) = uniqueValuesEq vs true col := by
+  unfold uniqueValuesEq aggShown
+  simp [List.filter_filter]
+
+/-- a required value that does not occur makes the check fail -/
+theorem uniqueValuesEq_missing_value (vs col : List Val) (na : Bool) (v : Val) (hv : v ∈ vs)
+    (hmiss : ∀ x ∈ aggShown na col, Val.same v x = false) : uniqueValuesEq vs na col = false := by
+  unfold uniqueValuesEq setEq
+  have : vs.all (fun v => (aggShown na col).any (fun x => Val.same v x)) = false := by
+    rw [List.all_eq_false]
+    refine ⟨v, hv, ?_⟩
+    simp only [Bool.not_eq_true, List.any_eq_false]
+    intro x hx
+    simp [hmiss x hx]
+  simp [this]
+
+example : uniqueValuesEq [.int 1, .int 2] true [.int 2, .null, .int 1, .int 2] = true := by decide
+example : uniqueValuesEq [.int 1, .int 2] true [.null, .null] = false := by decide
+example : uniqueValuesEq [.int 1] true [] = false := by decide
 
 end C01
 end Pandera
